@@ -88,6 +88,31 @@ def experiment(block, p, work, exp_id, new_version=None, mode="kill", max_k=200)
         shutil.rmtree(root)
         shutil.copytree(snap, root, symlinks=True)
         env = {"LD_PRELOAD": FSFAULT, "VERIF_FS_ROOT": storage, "VERIF_FS_KILL_AT": str(k), "VERIF_FS_MODE": mode}
+        if mode == "eio":
+            # a single call fails with an I/O error and execution continues: the process must survive,
+            # and what it selects afterwards (in this process and at the next launch) is judged
+            logf = root + ".fslog"
+            env["VERIF_FS_LOG"] = logf
+            if os.path.exists(logf):
+                os.unlink(logf)
+            rc, robs0, err = run_ops(root, [launch_init, op, "O nextn"], env)
+            hit = os.path.exists(logf) and sum(1 for _ in open(logf)) > k
+            if os.path.exists(logf):
+                os.unlink(logf)
+            if not hit:
+                break                  # fewer than k+1 mutating calls: enumeration complete
+            if rc != 0 or len(robs0) != 3:
+                out.append("X k=%d mode=eio | ABNORMAL the process did not survive the I/O error: rc=%d %s" % (k, rc, err.strip().replace("\n", " ")[-300:]))
+                k += 1
+                continue
+            crash_obs = observe(root)
+            rrc, robs, rerr = run_ops(root, [launch_init, "O nextn"])
+            if rrc != 0 or len(robs) != 2:
+                out.append("X k=%d mode=eio | %s | RECOVERY-FAILED rc=%d %s" % (k, crash_obs, rrc, rerr.strip().replace("\n", " ")[-300:]))
+            else:
+                out.append("X k=%d mode=eio | %s | %s | %s | %s | %s" % (k, crash_obs, launch_init[2:], robs[0], robs[1], robs0[2]))
+            k += 1
+            continue
         rc, _, err = run_ops(root, [launch_init, op], env)
         if rc == 0:
             break                      # the process survived: k is past its last mutation
@@ -159,7 +184,7 @@ def _one(args):
         return (eid, block, p, nv, mode, ["K %s" % eid, "X k=0 mode=%s | ABNORMAL orchestrator: %s" % (mode, repr(e)[:200]), "E"])
 
 
-def campaign(trace_text, seed, n_experiments, release_change_pct=30, torn_pct=25, workers=16):
+def campaign(trace_text, seed, n_experiments, release_change_pct=30, torn_pct=20, eio_pct=25, workers=16):
     """Pick (history, position) pairs pseudo-randomly and run the experiments."""
     import random
     from concurrent.futures import ProcessPoolExecutor
@@ -176,7 +201,8 @@ def campaign(trace_text, seed, n_experiments, release_change_pct=30, torn_pct=25
         if o.startswith(("O restart", "O dmg", "O init", "O conc", "O auto")):
             continue
         nv = "9.9.9%2B" + str(rnd.randrange(1, 50)) if rnd.randrange(100) < release_change_pct else None
-        mode = "torn" if rnd.randrange(100) < torn_pct else "kill"
+        r = rnd.randrange(100)
+        mode = "torn" if r < torn_pct else ("eio" if r < torn_pct + eio_pct else "kill")
         jobs.append((b, p, nv, mode, "x%d-%s-%d" % (len(jobs), block_id(b), p)))
     with ProcessPoolExecutor(max_workers=workers) as ex:
         return list(ex.map(_one, jobs))
